@@ -869,6 +869,18 @@ func corpus() []desc {
 	// the same calls answering a HEAD request are harmless
 	add("skipbody-head", two("HEAD", opD{T: "SetBody", V: hlib.B("hello")}, opD{T: "SkipBody", B: true}))
 	add("skipbody-false", two("GET", opD{T: "SkipBody", B: true}, opD{T: "SetBody", V: hlib.B("hello")}, opD{T: "SkipBody", B: false}))
+	// status sweep: every status class x {GET, HEAD} x {in-memory body, stream of known size, chunked stream, no body},
+	// each followed by a second pipelined request: the reader must find exactly one response and the next one at its end
+	for _, st := range []int64{100, 101, 102, 103, 199, 200, 201, 202, 203, 204, 205, 206, 207, 208, 226, 299, 300, 301, 302, 303, 304, 305, 307, 308,
+		399, 400, 404, 418, 499, 500, 503, 599, 600, 999} {
+		for _, m := range []string{"GET", "HEAD"} {
+			sc := opD{T: "SetStatusCode", N: st, Vr: int(st) % 3}
+			add("status-sweep", two(m, sc, opD{T: "SetBody", V: hlib.B("hello")}))
+			add("status-sweep", two(m, sc, opD{T: "SetBodyStream", N: 5, S: rd("reader", false, "hel", "lo")}))
+			add("status-sweep", two(m, sc, opD{T: "SetBodyStream", N: -1, S: rd("reader", false, "hel", "lo")}))
+			add("status-sweep", two(m, sc))
+		}
+	}
 	// Del of every header the Response keeps outside h.h
 	for _, k := range []string{"Content-Type", "Content-Encoding", "Server", "Set-Cookie", "Connection", "Trailer", "Transfer-Encoding", "Date", "content-type", "X-Foo"} {
 		add("del-special", two("GET", opD{T: "SetContentType", V: hlib.B("text/html")}, opD{T: "SetContentEncoding", V: hlib.B("identity")}, opD{T: "SetServer", V: hlib.B("s1")},
